@@ -467,5 +467,5 @@ func btoi(b bool) int {
 
 func main() {
 	vh.Pre = pre
-	vh.Main(gen, func(op string) string { return vh.SafeTimeout(30*time.Second, func() string { return exec(op) }) })
+	vh.Main(gen, func(op string) string { return vh.SafeTimeout(600*time.Second, func() string { return exec(op) }) })
 }
